@@ -4,7 +4,8 @@
 // for the console and for the server's run endpoint.
 //
 // E-enum with containment. The parent enumerates (a) every token sequence up to
-// a length over a 48-token alphabet and (b) every single-token deletion,
+// a length over a 49-token alphabet, (b) every proper prefix of the seeds (texts
+// that end in the middle of a construct) and (c) every single-token deletion,
 // duplication, adjacent swap and substitution of 40 pure seed programs
 // (thorough: also pairs of edits on a 10-program core), and hands them to
 // worker processes. A worker runs each text in-process through one of four
@@ -815,7 +816,7 @@ func main() {
 		}
 	}
 
-	r.Rule(fmt.Sprintf("every token sequence up to the phase's length over a %d-token alphabet (as whole text, inside func main, one token per console line) and every single-token deletion, duplication, adjacent swap and substitution by each alphabet token of %d seed programs (thorough: plus length-4 sequences over a %d-token core alphabet and pairs of edits on %d core seeds), each through the driver named in the phase (see the phase:* keys); distinct = a (driver, text) pair whose text executed at least one bytecode instruction of its own", len(alphabet), len(seedText), len(coreAlphabet), len(coreSeeds)))
+	r.Rule(fmt.Sprintf("every token sequence up to the phase's length over a %d-token alphabet (as whole text, inside func main, inside a func f that is never closed, one token per console line), every proper prefix of every seed program (cut after each token; on the file and pipe drivers also followed by a never-closed comment) and every single-token deletion, duplication, adjacent swap and substitution by each alphabet token of %d seed programs (thorough: plus length-4 sequences over a %d-token core alphabet and pairs of edits on %d core seeds), each through the driver named in the phase (see the phase:* keys); distinct = a (driver, text) pair whose text executed at least one bytecode instruction of its own", len(alphabet), len(seedText), len(coreAlphabet), len(coreSeeds)))
 
 	// ---- triage of the candidates -----------------------------------------------
 	// One root cause shows through every driver and in hundreds of texts: the
